@@ -66,31 +66,37 @@ Theorem C02_final_is_full_mania : forall (S : Type) (process : S -> Z -> S) (s0 
 Proof. exact mania_oneshot_cap. Qed.
 Print Assumptions C02_final_is_full_mania.
 
-(* taiko (after the fix 8d6162b): for every flag list (which objects are hits), every skill oracle
+(* taiko (after the fixes 8d6162b and the F6c fix): for every flag list (which objects are hits), every skill oracle
    and every op sequence the calculator equals the plain iterator over one-shot(1..hits);
    passed_objects counts hits *)
 Theorem C02_taiko : forall (S : Type) (process : S -> Z -> S) (s0 : S) (flags : list bool),
-  zlen flags < 18446744073709551616 -> forall ops : list gop, Forall nth_ok ops ->
+  zlen flags < 4294967295 -> forall ops : list gop, Forall nth_ok ops ->
   run_gops (taiko_next S process flags) (taiko_nth S process flags) (taiko_len S flags) (fun v => v) ops
            (taiko_new S s0)
   = spec_gops (oneshots (taiko_oneshot S process s0 flags) (taiko_total_hits flags)) ops.
 Proof. exact taiko_gradual_refines. Qed.
 Print Assumptions C02_taiko.
 
-(* taiko, known finding F6c: on a map that ends in non-hit objects (spinner / drum roll after the
-   last hit) the final value — one-shot with all hits passed — differs from the unlimited
-   calculation, which also processes the trailing objects *)
-Theorem C02_taiko_trailing_refuted :
-  exists flags,
-    let full := taiko_oneshot (list Z) trace_process [] flags USIZE_MAX in
-    let last_v := taiko_oneshot (list Z) trace_process [] flags (taiko_total_hits flags) in
-    snd full <> snd last_v.
-Proof. exact taiko_trailing_refuted. Qed.
-Print Assumptions C02_taiko_trailing_refuted.
+(* taiko, former finding F6c (fixed): passing the last hit passes the whole map, so the final
+   gradual value — the one-shot value with all hits passed — is the value of the unlimited
+   calculation and of every passed_objects beyond, for every flag list incl. trailing non-hits *)
+Theorem C02_final_is_full_taiko : forall (S : Type) (process : S -> Z -> S) (s0 : S)
+    (flags : list bool) (take : Z),
+  0 < taiko_total_hits flags -> taiko_total_hits flags <= take ->
+  taiko_oneshot S process s0 flags take = taiko_oneshot S process s0 flags (taiko_total_hits flags).
+Proof. exact taiko_final_is_full. Qed.
+Print Assumptions C02_final_is_full_taiko.
+
+Example C02_taiko_trailing_now_ok :
+  let flags := [true; true; true; false] in
+  taiko_oneshot (list Z) trace_process [] flags USIZE_MAX
+  = taiko_oneshot (list Z) trace_process [] flags (taiko_total_hits flags)
+  /\ taiko_run flags [GNext; GNext; GNext; GNext] = taiko_spec flags [GNext; GNext; GNext; GNext].
+Proof. exact taiko_trailing_now_ok. Qed.
 
 (* the one-shot side counts min(take, hits) *)
 Theorem C02_taiko_combo : forall (S : Type) (process : S -> Z -> S) (s0 : S)
-    (flags : list bool) (take : Z), 0 <= take ->
+    (flags : list bool) (take : Z), 0 <= take -> taiko_total_hits flags < U32_MAX ->
   fst (taiko_oneshot S process s0 flags take) = Z.min take (taiko_total_hits flags).
 Proof. exact taiko_oneshot_combo. Qed.
 Print Assumptions C02_taiko_combo.
